@@ -94,7 +94,7 @@ func verifOpenNode(t testing.TB, dir string, hostKey types.PrivateKey, cm *chain
 	if err != nil {
 		t.Fatal("volumes:", err)
 	}
-	n.contracts, err = contracts.NewManager(n.store, n.volumes, cm, verifSyncer{}, n.wallet, contracts.WithRejectAfter(10), contracts.WithRevisionSubmissionBuffer(5))
+	n.contracts, err = contracts.NewManager(n.store, n.volumes, cm, verifSyncer{}, n.wallet, contracts.WithRejectAfter(1000000), contracts.WithRevisionSubmissionBuffer(5))
 	if err != nil {
 		t.Fatal("contracts:", err)
 	}
